@@ -131,33 +131,38 @@ theorem cancel_ok {st : St} (id : Nat) (h : WF st) :
     exact ⟨⟨wf_erase_wf id h rfl rfl, fun s hs => ⟨by apply wf_erase_dead id h ?_ ?_ hs <;> rfl, by simp⟩, by simp, by simp⟩,
            ⟨Nat.le_refl _, fun e he => Or.inl (mem_erase he).1⟩⟩
 
+theorem refuse_ok {st : St} (h : WF st) : StepOK st (refuse st).1 [] ∧ Ext st (refuse st).1 :=
+  ⟨⟨⟨h.1, fun e he => Nat.lt_succ_of_lt (h.2 e he)⟩,
+    fun s hs => ⟨⟨Nat.lt_succ_of_lt hs.1, hs.2⟩, by simp⟩, by simp, by simp⟩,
+   ⟨Nat.le_succ _, fun e he => Or.inl he⟩⟩
+
 theorem lookup_ok {st : St} (sid : Nat) (h : WF st) :
     StepOK st (lookup st sid).1 [] ∧ Ext st (lookup st sid).1 := by
   unfold lookup
   split
-  · exact ⟨⟨⟨h.1, fun e he => Nat.lt_succ_of_lt (h.2 e he)⟩,
-            fun s hs => ⟨⟨Nat.lt_succ_of_lt hs.1, hs.2⟩, by simp⟩, by simp, by simp⟩,
-           ⟨Nat.le_succ _, fun e he => Or.inl he⟩⟩
-  · refine ⟨⟨⟨?_, ?_⟩, fun s hs => ⟨⟨Nat.lt_succ_of_lt hs.1, ?_⟩, by simp⟩, by simp, by simp⟩, ⟨Nat.le_succ _, ?_⟩⟩
-    · simp only [List.map_cons, List.nodup_cons]
-      refine ⟨?_, h.1.sublist (erase_serials_sublist _ _)⟩
-      intro hm
-      obtain ⟨e, he, hs⟩ := List.mem_map.mp hm
-      have := h.2 e (mem_erase he).1
-      have hs' : e.2.serial = st.nextSerial := hs
-      omega
-    · intro e he
-      rcases List.mem_cons.mp he with rfl | he
-      · exact Nat.lt_succ_self _
-      · exact Nat.lt_succ_of_lt (h.2 e (mem_erase he).1)
-    · intro e he
-      rcases List.mem_cons.mp he with rfl | he
-      · simp only; have := hs.1; omega
-      · exact hs.2 e (mem_erase he).1
-    · intro e he
-      rcases List.mem_cons.mp he with rfl | he
-      · exact Or.inr (Nat.le_refl _)
-      · exact Or.inl (mem_erase he).1
+  · exact refuse_ok h
+  · split
+    · exact refuse_ok h
+    · refine ⟨⟨⟨?_, ?_⟩, fun s hs => ⟨⟨Nat.lt_succ_of_lt hs.1, ?_⟩, by simp⟩, by simp, by simp⟩, ⟨Nat.le_succ _, ?_⟩⟩
+      · simp only [List.map_cons, List.nodup_cons]
+        refine ⟨?_, h.1.sublist (erase_serials_sublist _ _)⟩
+        intro hm
+        obtain ⟨e, he, hs⟩ := List.mem_map.mp hm
+        have := h.2 e (mem_erase he).1
+        have hs' : e.2.serial = st.nextSerial := hs
+        omega
+      · intro e he
+        rcases List.mem_cons.mp he with rfl | he
+        · exact Nat.lt_succ_self _
+        · exact Nat.lt_succ_of_lt (h.2 e (mem_erase he).1)
+      · intro e he
+        rcases List.mem_cons.mp he with rfl | he
+        · simp only; have := hs.1; omega
+        · exact hs.2 e (mem_erase he).1
+      · intro e he
+        rcases List.mem_cons.mp he with rfl | he
+        · exact Or.inr (Nat.le_refl _)
+        · exact Or.inl (mem_erase he).1
 
 /-- a callback script only issues and cancels lookups: it runs no callback -/
 theorem runScript_ok (self : Nat) : ∀ (acts : List Act) (st : St), WF st →
@@ -262,14 +267,18 @@ theorem onRecv_ok {st : St} (d : List Byte) (h : WF st) : StepOK st (onRecv st d
     · exact applyReply_ok _ h
     · exact StepOK.refl h
 
-theorem onTimeout_ok {st0 : St} {acc : St × List Event} (id : Nat) (h : StepOK st0 acc.1 acc.2) :
-    StepOK st0 (onTimeout acc id).1 (onTimeout acc id).2 := by
+theorem onTimeout_ok {st0 : St} {acc : St × List Event} (t : Token) (h : StepOK st0 acc.1 acc.2) :
+    StepOK st0 (onTimeout acc t).1 (onTimeout acc t).2 := by
   unfold onTimeout
-  cases hf : find acc.1.reqs id with
+  cases hf : find acc.1.reqs t.1 with
   | none => exact h
-  | some r => exact h.trans (finish_ok _ h.1 hf)
+  | some r =>
+    dsimp only
+    split
+    · exact h.trans (finish_ok _ h.1 hf)
+    · exact h
 
-theorem foldl_onTimeout_ok {st0 : St} (items : List Nat) :
+theorem foldl_onTimeout_ok {st0 : St} (items : List Token) :
     ∀ (acc : St × List Event), StepOK st0 acc.1 acc.2 →
       StepOK st0 (items.foldl onTimeout acc).1 (items.foldl onTimeout acc).2 := by
   induction items with
